@@ -25,6 +25,8 @@ ASSUMPTIONS = [
 ]
 
 UNIVERSES = {
+    "1s": (["a"], [["gamma", "alpha", "b"]]),
+    "1n": (["a"], [[3, 1, 2]]),
     "2x2": (["a", "b"], [[2, 1], ["y", "x"]]),
     "3x2": (["b", "a"], [[5, 3, 4], [1.5, 0.5]]),
     "2x2x2": (["c", "a", "b"], [[2, 1], ["q", "p"], [10, 20]]),
@@ -44,7 +46,7 @@ def orders(sub):
 
 
 def cases(tier, seed):
-    unis = ["2x2", "3x2", "2x2x2"] + (
+    unis = ["1s", "1n", "2x2", "3x2", "2x2x2"] + (
         ["3x3", "2x2x2x2"] if tier == "thorough" else [])
     j = 0
     for u in unis:
@@ -122,8 +124,13 @@ def check_case(case):
                 # axis order = key order of the first case
                 ax_names = list(dcases[0].keys())
             else:
-                got = xyz.case_runner(f, names, [tuple(c) for c in chosen],
-                                      combos=combos, **kw)
+                tcases = [tuple(c) for c in chosen]
+                fa = names
+                if len(names) == 1 and case["keyrot"] != 1:
+                    # a single argument: bare values and a bare name
+                    tcases = [c[0] for c in chosen]
+                    fa = names[0] if case["keyrot"] == 2 else names
+                got = xyz.case_runner(f, fa, tcases, combos=combos, **kw)
                 flat = True
                 ax_names = names
         except Exception as e:
